@@ -314,10 +314,29 @@ func (fc *FnCtx) onceDo(st *State, instr ssa.CallInstruction, args []SV, resT ty
 	skip := st.clone()
 	skip.guard = vc.define("g_onceskip", SBool, mkAnd(st.guard, done))
 	fc.callStatic(run, instr, mc.Fn.(*ssa.Function), nil, mc, mc.Fn.(*ssa.Function).Signature.Results())
+	fc.ghostFrame(run, "onceDone", once, instr)
 	fc.ghostSet(run, "onceDone", SBool, once, "true")
 	merged := vc.joinStates([]*State{run, skip}, "once")
 	*st = *merged
 	return SV{Typ: resT}
+}
+
+// onceInit: sync.Once fields of a freshly allocated struct have not fired.
+func (fc *FnCtx) onceInit(st *State, r Term, T types.Type) {
+	stT, ok := T.Underlying().(*types.Struct)
+	if !ok {
+		return
+	}
+	for i := 0; i < stT.NumFields(); i++ {
+		f := stT.Field(i)
+		if fc.e.typeName(f.Type()) == "sync.Once" {
+			lv := fc.e.rootLV(r, T)
+			nl := *lv
+			nl.Path = f.Name()
+			nl.Typ = f.Type()
+			fc.ghostSet(st, "onceDone", SBool, fc.interiorPtr(&nl), "false")
+		}
+	}
 }
 
 // afterStore: ghost effects of particular stores.
@@ -504,6 +523,49 @@ func (fc *FnCtx) rangeNext(st *State, x *ssa.Next) {
 	fc.vals[x] = out
 }
 
+// timerChanOf remembers that a channel value is the C field of a *time.Timer.
+func (fc *FnCtx) timerChanOf(x ssa.Value, lv *LV) {
+	if lv.Col == "*time.Timer" && lv.Path == "C" {
+		fc.timerCh[x] = lv.Ref
+	}
+}
+
+// timerRecv: a receive from t.C is possible only if the timer was set and not
+// stopped, or a fired value may still be waiting; it consumes that value.
+func (fc *FnCtx) timerRecv(st *State, ch ssa.Value, chosen Term) {
+	t, ok := fc.timerCh[ch]
+	if !ok {
+		return
+	}
+	on := fc.ghostGet(st, "timerOn", SBool, t)
+	may := fc.ghostGet(st, "timerMayHold", SBool, t)
+	fc.vc.assume(st, mkImp(chosen, mkOr(on, may)))
+	fc.vc.note("timer channel: a value is received from t.C only if the timer is set (not stopped) or an undrained fired value may be waiting")
+	fc.ghostSet(st, "timerOn", SBool, t, mkIte(chosen, "false", on))
+	fc.ghostSet(st, "timerMayHold", SBool, t, mkIte(chosen, "false", may))
+}
+
+// joinRecv: a receive from a channel declared `joins T.ch ghost` returns only
+// after the goroutine that owns the deferred close(ch) has returned.
+func (fc *FnCtx) joinRecv(st *State, ch ssa.Value, chosen Term) {
+	lv, ok := fc.loadedFrom[ch]
+	if !ok || lv.HasIdx || lv.Elem {
+		return
+	}
+	g, ok := fc.e.spec.Joins[lv.Col+"."+lv.Path]
+	if !ok {
+		return
+	}
+	gf := fc.e.spec.Ghosts[g]
+	if gf == nil {
+		return
+	}
+	cur := fc.ghostGet(st, g, gf.Sort, lv.Ref)
+	fc.ghostFrame(st, g, lv.Ref, nil)
+	fc.ghostSet(st, g, gf.Sort, lv.Ref, mkIte(chosen, "false", cur))
+	fc.vc.note("join pattern assumed: " + lv.Col + "." + lv.Path + " is closed only by the deferred close of the goroutine flagged by " + g)
+}
+
 // ---------- channels ----------
 
 // chanField names the struct field a channel value was loaded from ("fsm.readerMsgCh").
@@ -574,6 +636,8 @@ func (fc *FnCtx) recv(st *State, ch ssa.Value, commaOk bool, resT types.Type, po
 	closed := fc.ghostGet(st, "chanClosed", SBool, c)
 	// a receive from a closed channel yields the zero value; otherwise the
 	// value satisfies the channel invariant
+	fc.timerRecv(st, ch, "true")
+	fc.joinRecv(st, ch, "true")
 	okc := vc.fresh("recv_ok", SBool)
 	sub := st.clone()
 	sub.guard = vc.define("g_recv", SBool, mkAnd(st.guard, okc))
@@ -609,6 +673,8 @@ func (fc *FnCtx) selectStmt(st *State, x *ssa.Select) {
 			fc.chanInv(sub, s.Chan, fc.val(s.Send), true, s.Pos, fmt.Sprintf("select#%d case %d send", fc.selectOrd(x), k))
 			continue
 		}
+		fc.timerRecv(st, s.Chan, chosen)
+		fc.joinRecv(st, s.Chan, chosen)
 		et := s.Chan.Type().Underlying().(*types.Chan).Elem()
 		v := vc.havoc(et, fmt.Sprintf("sel%d", k), st.alloc)
 		okc := vc.fresh("selrecv_ok", SBool)
@@ -620,6 +686,33 @@ func (fc *FnCtx) selectStmt(st *State, x *ssa.Select) {
 		out.T = append(out.T, v.T...)
 		// a closed channel is always ready to receive
 		knownReady = append(knownReady, mkAnd(mkNot(mkEq(c, "0")), closed))
+	}
+	// select anchors: `at select#k case j set/assert ...`
+	if fc.contract != nil {
+		ord := fc.selectOrd(x)
+		for _, a := range fc.contract.Ats {
+			if a.Kind != "select" || a.Ord != ord {
+				continue
+			}
+			a := a
+			fc.vc.atMatched[fmt.Sprintf("%s:%d", a.C.File, a.C.Line)] = true
+			chosen := mkEq(idx, num(int64(a.Case)))
+			env := fc.env(st, x.Block())
+			env.atInstr = x
+			fc.vc.safeEval(fmt.Sprintf("%s:%d at select", a.C.File, a.C.Line), func() {
+				switch a.What {
+				case "set":
+					fc.ghostAssignCond(st, env, a.SetLHS, a.C.E, x, chosen)
+				case "assert":
+					sub := st.clone()
+					sub.guard = vc.define("g_selat", SBool, mkAnd(st.guard, chosen))
+					fc.vc.oblige(sub, "assert", a.C.Label, fmt.Sprintf("at select#%d case %d:%s", ord, a.Case, a.C.Label), fc.e.pos(x.Pos()), env.evalBool(a.C.E))
+				case "assume":
+					fc.vc.assume(st, mkImp(chosen, env.evalBool(a.C.E)))
+					fc.vc.note(fmt.Sprintf("ASSUME at select#%d case %d in %s: %s", ord, a.Case, fc.name, a.C.Src))
+				}
+			})
+		}
 	}
 	if !x.Blocking {
 		// default is taken only if no case is known to be ready
